@@ -616,6 +616,62 @@ def c18(ctx):
 
 
 # ---------------------------------------------------------------------------
+# C15  reconcile and sync never drop, reorder, un-revoke or invent log entries (two real repositories)
+
+REC_DEVS = {"ReplayedAnnotationKeepsStaleId", "ReplayDropsPropagationEntries", "ConflictCheckIgnoresPropagation", "SyncIgnoresPropagationEntries"}
+
+
+def c15(ctx):
+    q = ctx.quick()
+    known, asbuilt = devsets("C15")
+    asbuilt = (asbuilt & REC_DEVS) | known
+    mod = 211 if q else 53
+    consts = {"MaxC": 2, "MaxL": 2 if q else 3, "MaxR": 2, "Dev": set(), "EmitMod": mod, "EmitRes": ctx.seed % mod}
+    mc = model_check(ctx, "MC_Reconcile", dict(constants=consts, invariants=["Refines", "Consequences", "RevocationSurvives", "SyncGuarantees"],
+                                               constraints=["Emit"]), workers=8, timeout=4 * 3600)
+    for d in sorted(REC_DEVS):      # teeth: each listed deviation breaks an invariant in the model
+        r = run_tlc(ctx, "MC_Reconcile", dict(constants=dict(consts, MaxL=2, Dev={d}, EmitMod=1, EmitRes=0),
+                                              invariants=["Refines", "RevocationSurvives", "SyncGuarantees"]), workers=4, timeout=1800)
+        if r.error or not r.violated:
+            raise Infra("deviation %s was expected to break an invariant (vacuity guard): %s" % (d, r.error or "no violation"))
+    scns, seen = [], set()
+    for x in mc.records:
+        k = json.dumps(x, sort_keys=True)
+        if x.get("t") == "SCN" and k not in seen:
+            seen.add(k)
+            scns.append(x)
+    if not scns:
+        raise Infra("TLC emitted no scenarios")
+    scn_path = os.path.join(ctx.scratch, "scn.ndjson")
+    write_ndjson(scn_path, scns)
+    trace = os.path.join(ctx.scratch, "trace.ndjson")
+    run_vh(ctx, ["reconcile", "-scn", scn_path, "-out", trace, "-seed", ctx.seed, "-n", 50 if q else 1200], timeout=6 * 3600)
+    cls = validate_trace(ctx, "Trace_Reconcile", trace, {"Known": known, "AsBuilt": asbuilt}, shards=4 if q else 12)
+    lines = {x["id"]: x for x in read_ndjson(trace)}
+    tally = Tally(ctx)
+    for rec in cls:
+        x = rec["r"]
+        ln = lines[rec["id"]]
+        if x["cls"] == "infra":
+            raise Infra("harness could not run scenario %d: %s" % (rec["id"], x.get("why")))
+        item = None
+        if x["cls"] != "conform":
+            item = {"why": x.get("why"), "op": ln["scn"]["op"], "lref": ln["scn"].get("lref"), "C": ln["scn"]["C"], "L": ln["scn"]["L"],
+                    "R": ln["scn"]["R"], "obs": ln["obs"]}
+        tally.add(x["cls"], item, dev=x.get("dev"), nontrivial_key=rec["id"] if ln["scn"]["L"] and ln["scn"]["R"] else None)
+    return finish(ctx, tally, samples=[{"op": lines[1]["scn"]["op"], "C": lines[1]["scn"]["C"], "L": lines[1]["scn"]["L"], "R": lines[1]["scn"]["R"]}],
+                  traces=len(cls), exhaustive=False,
+                  assumptions=["local and remote are bare on-disk repositories built by the harness from one shared prefix (file transport, remote "
+                               "'origin'); entries are unsigned; ReconcileLocalRSLWithRemote and Sync run through experimental/gittuf.Repository",
+                               "logs are read back as meanings (kind, reference, commit, positions referred to) with git plumbing",
+                               "sync: branch placements behind / equal / ahead / diverged / absent relative to what the remote log records, with and "
+                               "without the overwrite flag; no policy is present, so the propagation step inside Sync does nothing; tags and the "
+                               "gittuf:: transport are not covered; non-fast-forward pushes are not provoked",
+                               "an observation that differs from the modelled algorithm but satisfies the property's own conditions is counted as "
+                               "'safe', not as a violation", "a seeded sample of the emitted log pairs is replayed"])
+
+
+# ---------------------------------------------------------------------------
 # C12  policy ref advances only to verified descendants that verification accepts
 
 def c12(ctx):
@@ -735,6 +791,7 @@ CHECKS = {
     "C12": c12,
     "C10": c10,
     "C18": c18,
+    "C15": c15,
     "C20": c20,
     "C13": c13,
     "C01": c01,
